@@ -18,6 +18,18 @@ CLAIMED = {
     "C05": ("static effect analysis (store-origin/ownership) + lock-region must-dataflow over go/ssa, VTA call graph",
             "every write reachable from concurrently callable entries (Execute*, ExecuteBlocks, From*, Render*, CleanCache, filters) goes to per-execution/fresh memory, to the template under construction, or to set state under the set mutex; the cache map is accessed only under its mutex",
             "that concurrent runs return exactly the sequential outputs (observed equality); races inside user data, user funcs, loaders", "DESIGN.md §3 C05"),
+    "C03": ("path-guard (must-pass-through edge) queries, provenance and who-may-write rules over go/ssa + AST uses",
+            "every TagParser invocation is reached only on the not-banned edge of a lookup of the same name in the compiling set's ban map (banned edge returns an error); every template-named filter resolution (registry lookup, ApplyFilter with a stored name) is tied to a ban check before a successful return; sub-templates compile through the referring template's set (never the default-set shortcuts); Templates are constructed only by From* with the receiver set; ban maps are written only by BanTag/BanFilter behind freeze/existence/duplicate tests; every template-creating method sets the freeze flag first",
+            "nothing of the statement is left to behaviour except that custom tags/filters registered by users are outside the engine", "DESIGN.md §3 C03"),
+    "C12": ("static effect/ownership analysis + path-guard queries over go/ssa",
+            "no map update/delete reachable from execution targets the caller's Context, ExecutionContext.Public, TemplateSet.Globals or package-level Contexts; no reflect.Set*; every ExecutionContext gets a fresh Private map; for/with/macro/block.Super bind names and run their body in a child context; context keys are validated (identifier syntax, macro clash) with error returns before execution; Globals merged before the caller context; Private consulted before Public",
+            "visibility probes as observed behaviour (which value a name shows at which point)", "DESIGN.md §3 C12"),
+    "C13": ("path-guard and must-pass-through queries over go/ssa + call-graph callers (incl. closures reached by reflection)",
+            "every route into a macro body increments the depth counter and is reached only on the within-cap edge of a comparison with a constant whose other edge returns an error; increments are paired with decrements on all exits; positional binding is guarded by the argument-count test (error edge), uses the same index for name and value and happens after the defaults are merged; wrappers forward the argument list unchanged; the result is AsSafeValue of the rendered body",
+            "that the i-th argument meets the i-th parameter as an observed value; default-expression values", "DESIGN.md §3 C13"),
+    "C14": ("use/def and path-guard queries over go/ssa + concrete-type-set analysis of error values",
+            "ExecuteWriter uses the caller's writer only to flush the finished buffer on the err==nil edge and returns the flush error; the four variants funnel into one executor with receiver and context unchanged and return the buffer content untransformed; every err.(*Error) assertion is proven by the concrete types the operand can hold",
+            "that the unbuffered variant writes only a leading part of the successful output", "DESIGN.md §3 C14"),
     "C20": ("lock-region must-dataflow, path-guard queries and call-graph reachability over go/ssa",
             "cache map accessed only under the set mutex; Lock/Unlock paired on all exits; lookup and fill in one critical section; fill only on the err==nil edge and never in Debug mode; lookup/fill/delete agree on the normalised key; no re-entry into the mutex from inside the critical section; per-set state freshly allocated per instance",
             "the number of loader fetches under a concrete schedule", "DESIGN.md §3 C20"),
